@@ -60,7 +60,7 @@ static uv_check_t mark_check; static uv_prepare_t mark_prepare;
 static char* bigbuf; static char rdbuf[65536];
 static const char* scratch;
 static int fd2h[MAXFD];
-static int udp_block, quiet, depth, in_close_call, pool_blocked, fp_unfenced;
+static int udp_block, quiet, depth, in_close_call, pool_blocked, fp_unfenced, poll_ended;
 static sem_t blocker_sem;
 static int rawl_fd = -1, rawl_port, rawl_fill[4];
 
@@ -292,7 +292,9 @@ static void on_close(uv_handle_t* p) {
 static void timer_cb(uv_timer_t* t) { handle_cb(t); }
 static void idle_cb(uv_idle_t* t) { handle_cb(t); }
 static void prepare_cb(uv_prepare_t* t) { handle_cb(t); }
-static void check_cb(uv_check_t* t) { handle_cb(t); }
+/* the first check callback of an iteration: the poll phase is over */
+static void poll_end(void) { if (!poll_ended) { poll_ended = 1; tok(".E"); } }
+static void check_cb(uv_check_t* t) { poll_end(); handle_cb(t); }
 static void async_cb(uv_async_t* t) { handle_cb(t); }
 static void poll_cb(uv_poll_t* t, int st, int ev) { (void) st; (void) ev; handle_cb(t); }
 static void signal_cb(uv_signal_t* t, int n) { (void) n; handle_cb(t); }
@@ -320,9 +322,10 @@ static void shutdown_cb(uv_shutdown_t* r, int st) { req_cb(r, st); }
 static void send_cb(uv_udp_send_t* r, int st) { req_cb(r, st); }
 
 /* markers: prepare = the poll phase is next, check = the closing phase is next */
-static void mark_prepare_cb(uv_prepare_t* p) { (void) p; tok(".P"); }
+static void mark_prepare_cb(uv_prepare_t* p) { (void) p; poll_ended = 0; tok(".P"); }
 static void mark_check_cb(uv_check_t* p) {
   int i; (void) p;
+  poll_end();
   for (i = 0; i < nh; i++)
     if (HT[i].kind == 'g' && HT[i].closing && !HT[i].closed) {
       uv_signal_t* s = (uv_signal_t*) HT[i].uv;
